@@ -328,3 +328,49 @@ def pulser_program() -> Program:
 
 def loc(func: FuncInfo, node: ast.AST | None = None) -> str:
     return func.loc(node)
+
+
+def akey(node: ast.AST, func: FuncInfo | None, limit: int = 70) -> str:
+    """Normalised statement text with the *local variable* names of `func` replaced by v1, v2, … in order of first
+    appearance: an obligation key built from it survives reformatting and renaming of locals."""
+    if func is None:
+        return text(node, limit)
+    # locals of the outermost enclosing function (nested defs share the numbering)
+    top = func
+    while top.parent is not None:
+        top = top.parent
+    loc = set()
+    for f in (top,):
+        for n in ast.walk(f.node):
+            if isinstance(n, ast.Name) and isinstance(n.ctx, (ast.Store, ast.Del)):
+                loc.add(n.id)
+            elif isinstance(n, (ast.FunctionDef, ast.AsyncFunctionDef)) and n is not f.node:
+                loc.add(n.name)
+    params = set()
+    for n in ast.walk(top.node):
+        if isinstance(n, (ast.FunctionDef, ast.AsyncFunctionDef, ast.Lambda)):
+            a = n.args
+            params |= {x.arg for x in a.posonlyargs + a.args + a.kwonlyargs}
+            if a.vararg:
+                params.add(a.vararg.arg)
+            if a.kwarg:
+                params.add(a.kwarg.arg)
+    loc -= params
+    mapping: dict = {}
+
+    class T(ast.NodeTransformer):
+        def visit_Name(self, n):
+            if n.id in loc:
+                if n.id not in mapping:
+                    mapping[n.id] = f"v{len(mapping) + 1}"
+                return ast.copy_location(ast.Name(id=mapping[n.id], ctx=n.ctx), n)
+            return n
+
+    try:
+        copy = ast.parse(ast.unparse(node)).body[0]
+    except SyntaxError:
+        return text(node, limit)
+    if isinstance(copy, ast.Expr):
+        copy = copy.value
+    new = T().visit(copy)
+    return text(new, limit)
